@@ -91,29 +91,22 @@ def lab_axis_choice(ctx: Ctx, rule: str):
             for c_ in ast.walk(idx):
                 if isinstance(c_, ast.Call) and call_name(c_) in ("abs", "fabs", "absolute") and c_.args:
                     measured = c_.args[0]
-            # the vector crossed with the lab axis (by identity in the interpretation), and what the measured name was
-            # bound to when the index was computed
+            # the vector crossed with the lab axis and the vector whose components chose the axis, both by identity in the
+            # interpretation (names may be reused): they must be the same vector (or differences of the same two points)
             crossed = None
             for vid in (v.cross or ()):
                 w_ = r.vecs.get(vid)
                 if w_ is not None and w_ is not lp:
                     crossed = w_
-            if measured is not None and crossed is not None and isinstance(measured, ast.Name):
-                idx_line = getattr(idx, "lineno", 0)
-                last_def = None
-                for s_ in walk_no_nested(f.node):
-                    if isinstance(s_, ast.Assign) and isinstance(s_.targets[0], ast.Name) and s_.targets[0].id == measured.id \
-                            and s_.lineno <= idx_line and (last_def is None or s_.lineno >= last_def.lineno):
-                        last_def = s_
-                mtxt = norm(last_def.value) if last_def is not None else None
-                if mtxt is not None and crossed.origin and mtxt.replace(" ", "") != crossed.origin.replace(" ", ""):
-                    ctx.ob(rule, f, "collinear path: lab axis index %s" % norm(idx), False,
-                           "the completing lab axis must not be parallel to the vector it is crossed with (%s) -- the axis is chosen "
-                           "from the components of another vector (`%s` = %s): on this path that vector is parallel to the first one "
-                           "or ZERO (two coincident points), and for a zero vector the index is 0 whatever the first vector is; the "
-                           "cross product can then vanish and its normalisation is NaN" % (crossed.origin, measured.id, mtxt),
-                           node=idx)
-                    continue
+            meas = getattr(lp, "lab_measured", None)
+            if meas is not None and crossed is not None and meas is not crossed and not (meas.dir is not None and meas.dir == crossed.dir):
+                ctx.ob(rule, f, "collinear path: lab axis index %s" % norm(idx), False,
+                       "the completing lab axis must not be parallel to the vector it is crossed with (%s) -- the axis is chosen "
+                       "from the components of another vector (%s): on this path that vector is parallel to the first one "
+                       "or ZERO (two coincident points), and for a zero vector the index is 0 whatever the first vector is; the "
+                       "cross product can then vanish and its normalisation is NaN" % (crossed.origin, meas.origin),
+                       node=idx)
+                continue
             ok_forms = ("np.argmin(np.abs(", "np.abs(", "np.argmin(abs(", "np.argmin(np.fabs(", "np.argsort(np.abs(")
             good = txt.startswith(ok_forms) and ("argmin" in txt or txt.endswith("[0]"))
             bad = txt.startswith(("np.argmin(", "np.argmax(")) and "abs" not in txt or "argmax" in txt
